@@ -93,6 +93,41 @@ func usesWords(fi *FuncInfo, ct *Contract) bool {
 func findBoxed(fi *FuncInfo) map[types.Object]bool {
 	out := map[types.Object]bool{}
 	info := fi.Pkg.TypesInfo
+	// implicit address-of: pointer-receiver method called on an addressable struct variable
+	ast.Inspect(fi.Decl, func(n ast.Node) bool {
+		call, ok := n.(*ast.CallExpr)
+		if !ok {
+			return true
+		}
+		se, ok := unparen(call.Fun).(*ast.SelectorExpr)
+		if !ok {
+			return true
+		}
+		sel, ok := info.Selections[se]
+		if !ok || sel.Kind() != types.MethodVal {
+			return true
+		}
+		fn, ok := sel.Obj().(*types.Func)
+		if !ok {
+			return true
+		}
+		sig := fn.Type().(*types.Signature)
+		if sig.Recv() == nil {
+			return true
+		}
+		if _, wantPtr := sig.Recv().Type().Underlying().(*types.Pointer); !wantPtr {
+			return true
+		}
+		if _, havePtr := types.Unalias(typeOfInfo(info, se.X)).Underlying().(*types.Pointer); havePtr {
+			return true
+		}
+		if id, ok := unparen(se.X).(*ast.Ident); ok {
+			if v, ok := info.ObjectOf(id).(*types.Var); ok && !v.IsField() && v.Pkg() != nil && v.Parent() != v.Pkg().Scope() {
+				out[v] = true
+			}
+		}
+		return true
+	})
 	ast.Inspect(fi.Decl, func(n ast.Node) bool {
 		u, ok := n.(*ast.UnaryExpr)
 		if !ok || u.Op != token.AND {
